@@ -22,6 +22,8 @@ def validate(v, trace, name):
         for e in evs:
             if e["ev"] == "Cfg":
                 distinct.add((e["op"], e["k"], json.dumps(e["before"], sort_keys=True)))
+            elif e["ev"] == "Switch":
+                distinct.add(("switch", e["entry"], e["rule"], e["value"]))
             elif e["ev"] == "Parts" and e["a"] and e["b"]:
                 distinct.add((e["text"], e["ne"], e["na"]))
         if len(v.cov["samples"]) < 6:
@@ -31,6 +33,8 @@ def validate(v, trace, name):
             e = evs[rej[0] - 1]
             if e["ev"] == "Cfg":
                 sig = {"kind": rej[1], "op": e["op"]}
+            elif e["ev"] == "Switch":
+                sig = {"kind": rej[1], "entry": e["entry"], "rule": e["rule"], "value": e["value"]}
             else:
                 sig = {"kind": rej[1], "text": e.get("text", "")[:80]}
             v.failure(sig, {"event": e})
